@@ -204,15 +204,39 @@ func runC13(c *Ctx) {
 			sort.Strings(out)
 			return out
 		}
+		// how a function decides "this is an IPv4 address": through net.IP.To4
+		// or netip.Addr.Unmap+Is4 an IPv4-mapped IPv6 address counts as IPv4;
+		// through netip.Addr.Is4 alone it does not
+		family := func(set []string) string {
+			has := func(x string) bool {
+				for _, y := range set {
+					if y == x {
+						return true
+					}
+				}
+				return false
+			}
+			switch {
+			case has("net.To4"), has("net/netip.Is4") && has("net/netip.Unmap"):
+				return "IPv4-mapped addresses count as IPv4"
+			case has("net/netip.Is4"), has("net/netip.Is6"):
+				return "IPv4-mapped addresses count as IPv6"
+			}
+			return "no recognised IPv4 test"
+		}
 		pf := c.fn("banman.ParseIPNet")
 		ef := c.fn("banman.encodeIPNet")
 		a, b := classifiers(pf), classifiers(ef)
-		c.verdict(len(a) > 0 && join(a) == join(b), "banman.ParseIPNet / banman.encodeIPNet | same IPv4/IPv6 classification predicates", c.P.Pos(pf.Pos()), "both classify with "+join(a), fmt.Sprintf("ParseIPNet classifies addresses with {%s} but encodeIPNet with {%s}: a spelling the two treat differently (e.g. an IPv4-mapped IPv6 address) is stored under its own key", join(a), join(b)), a...)
-		// To4 is consulted before To16 in both (an IPv4 address also has a 16-byte form)
+		fa, fb := family(a), family(b)
+		c.verdict(fa == fb && fa != "no recognised IPv4 test", "banman.ParseIPNet / banman.encodeIPNet | same IPv4/IPv6 classification", c.P.Pos(pf.Pos()), "both: "+fa+" ("+join(a)+" / "+join(b)+")", fmt.Sprintf("ParseIPNet classifies addresses with {%s} (%s) but encodeIPNet with {%s} (%s): a spelling the two treat differently (an IPv4-mapped IPv6 address) gets a mask and an address of different lengths and is stored under its own key", join(a), fa, join(b), fb), append(a, b...)...)
+		// To4 is consulted before To16 wherever both are used (an IPv4 address
+		// also has a 16-byte form)
 		to4 := c.method("net", "IP", "To4")
 		to16 := c.method("net", "IP", "To16")
 		for _, fn := range []*ssa.Function{pf, ef} {
-			c.mustPrecede(fn, callTo(to4), "ip.To4()", callTo(to16), "ip.To16()", 1)
+			if len(find(fn, callTo(to16))) > 0 {
+				c.mustPrecede(fn, callTo(to4), "ip.To4()", callTo(to16), "ip.To16()", 1)
+			}
 		}
 		// result: &net.IPNet{IP: ip.Mask(mask), Mask: mask}
 		maskM := c.method("net", "IP", "Mask")
